@@ -27,6 +27,11 @@ def prepare_buffer(prep):
             o = b.allocate(op[1]); live.append((o, op[1]))
         elif op[0] == "free" and live:
             o, s = live.pop(op[1] % len(live)); b.free(o, s)
+    if prep.get("tail_left") is not None and b.chunks and b.chunks[-1].end == b.capacity:
+        ch = b.chunks[-1]
+        fill = (ch.end - ch.start) - int(prep["tail_left"])
+        if fill > 8:
+            o = b.allocate(fill); live.append((o, fill))
     # poison everything (free space and live neighbours alike), then mark neighbours
     cap = b.capacity
     if cap:
@@ -116,6 +121,29 @@ def run_case(c):
     # C01: read back through the constructor handle
     try:
         res["readback"] = X.readback(t, obj)
+        if t["k"] == "array" and t["item"]["k"] == "scalar":
+            # the same items read with numpy integer indices of every width (a valid index is a valid index)
+            shp = [int(d) for d in obj._shape]
+            n = int(np.prod(shp)) if shp else 0
+            bad = []
+            for c in sorted(set([0, n // 2, n - 1])) if n else []:
+                idx = []; r = c
+                for d in reversed(shp): idx.append(r % d); r //= d
+                idx = tuple(reversed(idx))
+                ref = obj[idx if len(idx) > 1 else idx[0]]
+                for dt in (np.int8, np.uint8, np.int16, np.uint16, np.int32, np.int64):
+                    if all(i <= np.iinfo(dt).max for i in idx):
+                        with np.errstate(all="ignore"):
+                            try:
+                                import warnings
+                                with warnings.catch_warnings():
+                                    warnings.simplefilter("ignore")
+                                    got = obj[tuple(dt(i) for i in idx) if len(idx) > 1 else dt(idx[0])]
+                                if np.asarray(got).tobytes() != np.asarray(ref).tobytes():
+                                    bad.append([list(idx), dt.__name__, "other-item"])
+                            except BaseException as e:  # noqa
+                                bad.append([list(idx), dt.__name__, X.exc_class(e)])
+            res["npidx_bad"] = bad[:4]
     except BaseException as e:  # noqa
         res["readback_exc"] = X.exc_class(e); res["readback_msg"] = repr(e)[:300]; res["readback_tb"] = traceback.format_exc()[-600:]
     # C06: a view made from buffer+offset only
